@@ -153,9 +153,12 @@ impl WriteAheadLog {
             current_size = valid_len;
         }
 
+        // Never hand out a sequence number at or below one already recorded as flushed,
+        // even when truncation left no entry behind to derive it from.
+        let flushed_seq = load_flushed_seq(&config.wal_dir)?;
         let next_seq = match last_sequence_in_segments(&segments)? {
-            Some(last_seq) => last_seq + 1,
-            None => 1,
+            Some(last_seq) => last_seq.max(flushed_seq) + 1,
+            None => flushed_seq + 1,
         };
 
         Ok(Self {
